@@ -33,13 +33,18 @@ def load_known(pid):
 def _worker(args):
     modname, shape, tier = args
     mod = importlib.import_module(modname)
+    from . import symx
     t0 = time.time()
+    before = dict(symx.RECHECK)
     try:
         r = mod.run_shape(shape, tier)
     except BaseException as e:  # noqa: BLE001 - a harness crash must be visible, never a pass
         r = {"status": HARNESS, "detail": f"{type(e).__name__}: {e}", "trace": traceback.format_exc()[-1500:]}
     r.setdefault("shape", shape if isinstance(shape, (str, int)) else None)
     r["wall_s"] = round(time.time() - t0, 3)
+    delta = {k: v - before.get(k, 0) for k, v in symx.RECHECK.items() if v - before.get(k, 0)}
+    if delta:
+        r["counters"] = {**(r.get("counters") or {}), **delta}
     return r
 
 
@@ -223,6 +228,8 @@ def main(argv=None):
         elif a == "--jobs":
             jobs = int(argv.pop(0))
     modname = f"vf.checks.{pid.lower()}"
+    # second opinion (cvc5) on a deterministic sample of the validity queries z3 answers unsat: 1 in 50 (quick) / 1 in 10 (thorough)
+    os.environ.setdefault("VERIF_RECHECK_RATE", "50" if tier == "quick" else "10")
     if rp:
         return replay(modname, rp)
     return run(modname, tier, jobs)
